@@ -172,7 +172,7 @@ func (h *hist) upgrade() {
 	}
 	h.rev = 2
 	m.latest = latest
-	m.cons[latest] = consRec{time: cons.Timestamp, root: cons.Root, nvh: cons.NextValidatorsHash, hasMeta: false}
+	m.cons[latest] = consRec{time: cons.Timestamp, root: cons.Root, nvh: cons.NextValidatorsHash, hasMeta: true, procTime: uint64(h.now.UnixNano())} // UpgradeState records the metadata of the installed height (fix f27930c)
 	h.r.Count("clients_upgraded_to_revision_2", 1)
 }
 
